@@ -55,8 +55,27 @@ const DETAILS: &[Details] = &[
         target_os = "macos"
     ))]
     s!(SIGINFO, Ignore),
-    #[cfg(not(target_os = "haiku"))]
+    // The BSD family discards SIGIO by default; elsewhere (Linux, Solaris, ... and POSIX'
+    // SIGPOLL) the default action terminates the process.
+    #[cfg(any(
+        target_os = "freebsd",
+        target_os = "dragonfly",
+        target_os = "netbsd",
+        target_os = "openbsd",
+        target_os = "macos",
+        target_os = "ios"
+    ))]
     s!(SIGIO, Ignore),
+    #[cfg(not(any(
+        target_os = "haiku",
+        target_os = "freebsd",
+        target_os = "dragonfly",
+        target_os = "netbsd",
+        target_os = "openbsd",
+        target_os = "macos",
+        target_os = "ios"
+    )))]
+    s!(SIGIO, Term),
     // Can't override anyway, but...
     s!(SIGKILL, Term),
     s!(SIGPIPE, Term),
